@@ -76,6 +76,15 @@ CLAIMED = {
             "contract-based deductive verification: exceptional postconditions with may-raise callee models + bounded "
             "structure-aware enumeration through the interpreted pipeline",
             "DESIGN.md section 4 C10"),
+    'C04': ("Result-type contract of from_element proved by complete case analysis over the class registry of a "
+            "verification interface (every declared x named class pair, both validators): the handler is entered only "
+            "with a class derived from the declared one, or ValidationError; scalar kind handlers (_ret_number, _ret_bool) "
+            "proved over the complete partition of value kinds with a symbolic integer. Bounded (labelled): every value "
+            "kind at every argument position for JSON/YAML/MessagePack, xsi:type retagging of 12 positions x 15 type names "
+            "x 3 validators through the real pipeline, xsi:nil values, wrapper-key substitution.",
+            "closed world for protocol handler tables; one verification interface; bounded parts listed in the evidence",
+            "contract-based verification: case analysis over live class-hierarchy facts + labelled bounded enumeration",
+            "DESIGN.md section 4 C04"),
 }
 NOT_YET = {}
 for i in range(1, 19):
